@@ -428,6 +428,14 @@ func init() {
 		}
 		return in.ts.FConst(64, math.Inf(-1)), nil, true
 	})
+	// math.Pow10 reads a table that package math fills in its init (not run): computed natively
+	reg("math.Pow10", func(in *Interp, s *State, c *callCtx) (Value, []*State, bool) {
+		n := c.args[0].(*term.Term)
+		if !n.IsConst() {
+			in.unsup("math.Pow10 of symbolic value")
+		}
+		return in.ts.FConst(64, math.Pow10(int(signedVal(n.Val, 64)))), nil, true
+	})
 	reg("math.NaN", func(in *Interp, s *State, c *callCtx) (Value, []*State, bool) {
 		return in.ts.FConst(64, math.NaN()), nil, true
 	})
